@@ -47,6 +47,10 @@ OPS = [
     ("read_pos", None), ("read_quat", None), ("read_mat", None),
     ("left", "se3"), ("right", "se3"), ("right_prop", "se3"),
     ("left", "sim3"), ("right", "sim3"), ("right_prop", "sim3"),
+    # a left multiplication with the propagation switch on: the switch only
+    # concerns right-hand side transformations (evo_traj --transform_left
+    # --propagate_transform passes exactly this), so this is still P -> T*P
+    ("left_propflag", "se3"), ("left_propflag", "sim3"),
     ("read_derived", None),
     ("scale", 2.0),
     ("reduce", (0, 2, 3)),
@@ -65,6 +69,9 @@ OPS = [
     ("align_origin", None),
     ("project", "xy"), ("project", "xz"), ("project", "yz"),
     ("deepcopy", None),
+    # calls that evo rejects for their argument: they change nothing and do
+    # not count as the operation (a rejected project() is not a projection)
+    ("rejected", "project"), ("rejected", "align"),
 ]
 
 
@@ -85,11 +92,13 @@ def _norm(a):
 
 
 class System(object):
-    n_inits = 4
+    # {path, trajectory} x {list of matrices, positions + quaternions} and a
+    # path / trajectory holding its matrices as one (n, 4, 4) array
+    n_inits = 6
 
     def initial(self, i):
-        with_stamps = i >= 2
-        mode = "se3" if i % 2 == 0 else "quat"
+        with_stamps = i in (2, 3, 5)
+        mode = ("se3" if i % 2 == 0 else "quat") if i < 4 else "arr"
         obj = common.make_traj(INIT_R, INIT_P,
                                INIT_T if with_stamps else None, mode)
         return State(obj, INIT_R, INIT_P, INIT_T if with_stamps else None)
@@ -116,7 +125,8 @@ class System(object):
         # which attributes exist is the hidden cache state (the three views
         # today; any further cache a refactoring adds is picked up as well)
         flags = (type(o).__name__, tuple(sorted(o.__dict__)),
-                 bool(o._projected))
+                 bool(o._projected),
+                 type(o.__dict__.get("_poses_se3")).__name__)
         parts = [repr(flags).encode()]
         parts.append(_norm(np.array([geom.pose(R, p)
                                      for R, p in zip(st.Rs, st.ps)])))
@@ -275,13 +285,14 @@ class System(object):
                         mag * max(1, n)):
                     msgs.append("distances read differ from the model")
                 new = (Rs, ps, ts)
-            elif name in ("left", "right", "right_prop"):
+            elif name in ("left", "right", "right_prop", "left_propflag"):
                 T = T_SE3 if arg == "se3" else T_SIM3
                 s = 1.0 if arg == "se3" else 2.0
                 Rt, tt = T[:3, :3] / s, T[:3, 3]
-                o.transform(T.copy(), right_mul=name != "left",
-                            propagate=name == "right_prop")
-                if name == "left":
+                o.transform(T.copy(),
+                            right_mul=name in ("right", "right_prop"),
+                            propagate=name in ("right_prop", "left_propflag"))
+                if name in ("left", "left_propflag"):
                     new = ([Rt @ R for R in Rs],
                            [s * (Rt @ p) + tt for p in ps], ts)
                 elif name == "right":
@@ -372,8 +383,12 @@ class System(object):
                     msgs.append("align modified the reference")
                 h = geom.horn(x, y, with_scale)
                 if check and rank >= 2 and h["gap"] > 1e-3 * h["lam"]:
+                    # (t = mean_y - c R mean_x inherits the rounding of R
+                    # times the size of the coordinates)
+                    tsc = max(10.0, float(np.abs(x).max()),
+                              float(np.abs(y).max()))
                     if not (common.close(r, h["R"]) and common.close(
-                            t, h["t"], 10) and abs(c - h["c"]) <= 1e-9 * h["c"]):
+                            t, h["t"], tsc) and abs(c - h["c"]) <= 1e-9 * h["c"]):
                         msgs.append("align returned a transformation that is "
                                     "not the least-squares optimum of the "
                                     "first n pairs")
@@ -430,6 +445,26 @@ class System(object):
                 st.projected = True
             elif name == "deepcopy":
                 st.obj = copy.deepcopy(o)
+                new = (Rs, ps, ts)
+            elif name == "rejected":
+                bad = 0
+                if arg == "project":
+                    for plane in ("xy", None, 7):
+                        try:
+                            o.project(plane)
+                        except Exception:
+                            bad += 1
+                    want = 3
+                else:
+                    try:
+                        o.align(_ref(n + 1))   # reference of another length
+                    except Exception:
+                        bad += 1
+                    want = 1
+                if check and bad != want:
+                    msgs.append("invalid %s call was accepted" % arg)
+                if check and common.snapshot(o) != before:
+                    msgs.append("rejected %s call changed the object" % arg)
                 new = (Rs, ps, ts)
             else:
                 raise AssertionError(name)
@@ -501,7 +536,8 @@ def run(ctx):
     acc.counters["evaluations"] = acc.counters["transitions"]
     acc.rule = (
         "BFS over all histories of depth <= %d over %d operations (%s) from "
-        "4 initial objects {PosePath3D, PoseTrajectory3D} x {matrices, "
+        "6 initial objects {PosePath3D, PoseTrajectory3D} x {list of matrices, "
+        "one (n,4,4) array, "
         "positions+quaternions} with 4 poses, and to depth 2 (3) from two "
         "16-pose trajectories; states de-duplicated by (class, which "
         "cached views exist, projected flag, pose content rounded to 1e-9, "
